@@ -26,7 +26,7 @@ theorem eval_natDNS (k : Chain → Packet → Res) (c : Config) (p : Packet) :
     cases c.dns <;> cases c.captureAllDNS <;> simp [List.all_append, List.all_map, Function.comp_def])]
   congr 1
   cases hd : c.dns <;> cases hc : c.captureAllDNS <;>
-    simp [dnsCaptured, hd, hc, isTcpUdp, Rule.fires, Match.eval, List.any_append, List.any_map, Function.comp_def,
+    simp [dnsCaptured, ← dns_eq_dnsActive, hd, hc, isTcpUdp, Rule.fires, Match.eval, List.any_append, List.any_map, Function.comp_def,
       dnsCidr_contains, dnsOf_fam, List.contains_eq_any_beq]
   all_goals grind
 
@@ -84,6 +84,7 @@ theorem call_natDNS (c : Config) (p : Packet) (d : Nat) (h : famOn c p.fam = tru
 
 theorem dnsCaptured_jump (c : Config) (p : Packet) (h : dnsCaptured c p = true) : dnsJump c p.fam = true := by
   unfold dnsCaptured at h
+  rw [← dns_eq_dnsActive] at h
   unfold dnsJump
   rw [dnsOf_fam]
   cases hc : c.captureAllDNS
